@@ -232,7 +232,7 @@ def check(case):
                         if ssk not in [name(b) for b in back]:
                             bad('Synset.translate:asymmetric', f'{name(t)} in {ssk}.translate() but not conversely [{tag}]')
                     # sense translation = image
-                    for s in mem[:2]:
+                    for s in mem:
                         try:
                             with warnings.catch_warnings():
                                 warnings.simplefilter('ignore')
@@ -247,7 +247,7 @@ def check(case):
                         for x in ts:
                             keep('sense', x)
             # word translation
-            for wd in w.words()[:4]:
+            for wd in w.words():
                 for tsp in inst:
                     try:
                         with warnings.catch_warnings():
@@ -255,6 +255,14 @@ def check(case):
                             tw = wd.translate(lexicon=tsp)
                     except wn.Error:
                         continue
+                    # one key per sense of the word (the mapping is its senses' translations)
+                    try:
+                        own = sorted(name(s) for s in wd.senses())
+                    except wn.Error:
+                        own = None
+                    if own is not None and sorted(name(s) for s in tw) != own:
+                        bad('Word.translate:keys', f'{name(wd)}.translate(lexicon={tsp!r}) has keys '
+                            f'{sorted(name(s) for s in tw)}, the word has senses {own} [{tag}]')
                     for s, lst in tw.items():
                         rec = idx.senses[name(s)]
                         ssrec = idx.synsets[rec['synset']]
